@@ -21,6 +21,24 @@ def leaves(v):
     return [v]
 
 
+def _canon_fresh(terms):
+    """Terms with the executor's fresh symbols (sqrt!3, undef!7, ...) renamed in order of first appearance, so that two
+    executions with different symbol counters can be compared structurally."""
+    ren = {}
+
+    def go(t):
+        if isinstance(t, tuple):
+            if len(t) == 2 and t[0] == 'sym' and isinstance(t[1], str) and '!' in t[1]:
+                if t[1] not in ren:
+                    ren[t[1]] = '%s#%d' % (t[1].split('!')[0], len(ren))
+                return ('sym', ren[t[1]])
+            return tuple(go(x) for x in t)
+        if isinstance(t, list):
+            return [go(x) for x in t]
+        return t
+    return [go(t) for t in terms]
+
+
 class SymCall:
     """Result of executing function f on fully symbolic arguments."""
 
@@ -59,6 +77,7 @@ class SymCall:
                 self.pre[pn] = v
                 call_args.append(v)
         n0 = len(S.narrowings)
+        snap = (S.nsym, dict(getattr(S, '_sqrt_cache', {})), dict(getattr(S, '_trunc_cache', {})))     # for the constant audit
         self.ret = S.call(f, call_args, st)
         # precision audit: no value may be narrowed below the numeric type of the result it contributes to
         RANK = {'float': 0, 'double': 1, 'long double': 2}
@@ -85,10 +104,70 @@ class SymCall:
             for to, frm in S.narrowings[n0:]:
                 if RANK[to] < floor:
                     S.narrow_bad.append((to, frm, f.qualname, [k for k, v in RANK.items() if v == floor][0]))
+            self._audit_floor = floor
         if isinstance(self.ret, Ptr):
             self.ret_ptr = self.ret
             self.ret = S.load(st, self.ret)
         self.post = {pn: st.mem[b] for pn, b in self.boxes.items()}
+        # constant audit (only meaningful in exact mode and when a narrower type exists): a second execution in which
+        # constants of narrower types are evaluated in their own type must give the same result
+        floor = getattr(self, '_audit_floor', 0)
+        # (skipped when callee summaries with their own bookkeeping are installed: re-running them would disturb it)
+        if floor > 0 and S.mode == 'REAL' and getattr(S, 'const_floor', None) is None and not getattr(S, 'summaries', None):
+            try:
+                S2 = SymEx(low, mode='REAL', const_floor=floor, summaries=getattr(S, 'summaries', None), summary_for=getattr(S, 'summary_for', None))
+                # same starting point as the exact run: fresh-symbol counter and the square roots / truncations already named
+                S2.nsym, S2._sqrt_cache, S2._trunc_cache = snap[0], dict(snap[1]), dict(snap[2])
+                sc2 = SymCall.__new__(SymCall)
+                sc2._shadow(low, f, S2, names, args)
+                a_, b_ = _canon_fresh(self._result_leaves(f)), _canon_fresh(sc2._result_leaves(f))
+                if len(a_) == len(b_) and a_ != b_:
+                    S.narrow_bad.append(('a narrower type (a constant sub-expression)', 'constant', f.qualname, [k for k, v in RANK.items() if v == floor][0]))
+            except Exception:
+                pass
+
+
+    def _shadow(self, low, f, S, names, args=None):
+        """Re-execute f in executor S with the same (naming of the) arguments (used by the constant audit)."""
+        st = State()
+        self.f, self.S, self.st, self.pre, self.boxes = f, S, st, {}, {}
+        call_args = []
+        for i, (pn, pt) in enumerate(f.params):
+            nm = (names or {}).get(pn, pn)
+            if args is not None and pn in args:
+                v = args[pn]
+                if pt[0] == 'ptr':
+                    b = S.newbox(st, v)
+                    self.boxes[pn], self.pre[pn] = b, v
+                    call_args.append(Ptr(b, ()))
+                else:
+                    self.pre[pn] = v
+                    call_args.append(v)
+                continue
+            if pt[0] == 'ptr':
+                v = S.undef_value(pt[1]) if (f.kind == 'ctor' and i == 0) else S.symbolic_value(pt[1], nm)
+                b = S.newbox(st, v)
+                self.boxes[pn], self.pre[pn] = b, v
+                call_args.append(Ptr(b, ()))
+            else:
+                v = S.symbolic_value(pt, nm)
+                self.pre[pn] = v
+                call_args.append(v)
+        self.ret = S.call(f, call_args, st)
+        if isinstance(self.ret, Ptr):
+            self.ret = S.load(st, self.ret)
+        self.post = {pn: st.mem[b] for pn, b in self.boxes.items()}
+
+    def _result_leaves(self, f):
+        out = []
+        if f.kind == 'ctor':
+            out += leaves(self.post[f.params[0][0]])
+        elif self.ret is not None:
+            out += leaves(self.ret)
+        for pn, v in self.post.items():
+            if not (f.kind == 'ctor' and pn == f.params[0][0]):
+                out += leaves(v)
+        return out
 
     def input_syms(self):
         out = []
